@@ -4,6 +4,8 @@
 package vsync
 
 import (
+	"unsafe"
+
 	"sync"
 
 	"verifsim/simrt"
@@ -16,12 +18,14 @@ type Map = sync.Map
 // ---------------- Mutex
 
 type Mutex struct {
+	hb      byte // address used for the race detector's happens-before edges
 	real    sync.Mutex
 	im      sync.Mutex // protects the virtual fields
 	locked  bool
 	waiters []*simrt.Task
 }
 
+//go:norace
 func (m *Mutex) Lock() {
 	s := simrt.Active()
 	if s == nil {
@@ -30,11 +34,14 @@ func (m *Mutex) Lock() {
 	}
 	simrt.Yield()
 	t := s.Cur()
+	simrt.RaceDisable()
 	for {
 		m.im.Lock()
 		if !m.locked {
 			m.locked = true
 			m.im.Unlock()
+			simrt.RaceEnable()
+			simrt.RaceAcquire(unsafe.Pointer(&m.hb))
 			return
 		}
 		m.waiters = append(m.waiters, t)
@@ -43,26 +50,36 @@ func (m *Mutex) Lock() {
 	}
 }
 
+//go:norace
 func (m *Mutex) TryLock() bool {
 	s := simrt.Active()
 	if s == nil {
 		return m.real.TryLock()
 	}
+	simrt.RaceDisable()
 	m.im.Lock()
-	defer m.im.Unlock()
 	if m.locked {
+		m.im.Unlock()
+		simrt.RaceEnable()
 		return false
 	}
 	m.locked = true
+	m.im.Unlock()
+	simrt.RaceEnable()
+	simrt.RaceAcquire(unsafe.Pointer(&m.hb))
 	return true
 }
 
+//go:norace
 func (m *Mutex) Unlock() {
 	s := simrt.Active()
 	if s == nil {
 		m.real.Unlock()
 		return
 	}
+	simrt.RaceRelease(unsafe.Pointer(&m.hb))
+	simrt.RaceDisable()
+	defer simrt.RaceEnable()
 	m.im.Lock()
 	if !m.locked {
 		m.im.Unlock()
@@ -82,13 +99,15 @@ func (m *Mutex) Unlock() {
 // ---------------- RWMutex
 
 type RWMutex struct {
-	real    sync.RWMutex
-	im      sync.Mutex
-	writer  bool
-	readers int
-	waiters []*simrt.Task
+	hbR, hbW byte // as sync.RWMutex: readerSem / writerSem addresses for happens-before edges
+	real     sync.RWMutex
+	im       sync.Mutex
+	writer   bool
+	readers  int
+	waiters  []*simrt.Task
 }
 
+//go:norace
 func (m *RWMutex) Lock() {
 	s := simrt.Active()
 	if s == nil {
@@ -97,11 +116,15 @@ func (m *RWMutex) Lock() {
 	}
 	simrt.Yield()
 	t := s.Cur()
+	simrt.RaceDisable()
 	for {
 		m.im.Lock()
 		if !m.writer && m.readers == 0 {
 			m.writer = true
 			m.im.Unlock()
+			simrt.RaceEnable()
+			simrt.RaceAcquire(unsafe.Pointer(&m.hbR))
+			simrt.RaceAcquire(unsafe.Pointer(&m.hbW))
 			return
 		}
 		m.waiters = append(m.waiters, t)
@@ -110,12 +133,16 @@ func (m *RWMutex) Lock() {
 	}
 }
 
+//go:norace
 func (m *RWMutex) Unlock() {
 	s := simrt.Active()
 	if s == nil {
 		m.real.Unlock()
 		return
 	}
+	simrt.RaceRelease(unsafe.Pointer(&m.hbR))
+	simrt.RaceDisable()
+	defer simrt.RaceEnable()
 	m.im.Lock()
 	m.writer = false
 	w := m.waiters
@@ -124,6 +151,7 @@ func (m *RWMutex) Unlock() {
 	s.MakeRunnable(w...)
 }
 
+//go:norace
 func (m *RWMutex) RLock() {
 	s := simrt.Active()
 	if s == nil {
@@ -132,11 +160,14 @@ func (m *RWMutex) RLock() {
 	}
 	simrt.Yield()
 	t := s.Cur()
+	simrt.RaceDisable()
 	for {
 		m.im.Lock()
 		if !m.writer {
 			m.readers++
 			m.im.Unlock()
+			simrt.RaceEnable()
+			simrt.RaceAcquire(unsafe.Pointer(&m.hbR))
 			return
 		}
 		m.waiters = append(m.waiters, t)
@@ -145,12 +176,16 @@ func (m *RWMutex) RLock() {
 	}
 }
 
+//go:norace
 func (m *RWMutex) RUnlock() {
 	s := simrt.Active()
 	if s == nil {
 		m.real.RUnlock()
 		return
 	}
+	simrt.RaceReleaseMerge(unsafe.Pointer(&m.hbW))
+	simrt.RaceDisable()
+	defer simrt.RaceEnable()
 	m.im.Lock()
 	m.readers--
 	var w []*simrt.Task
@@ -162,11 +197,15 @@ func (m *RWMutex) RUnlock() {
 	s.MakeRunnable(w...)
 }
 
+//go:norace
 func (m *RWMutex) RLocker() Locker { return (*rlocker)(m) }
 
 type rlocker RWMutex
 
-func (r *rlocker) Lock()   { (*RWMutex)(r).RLock() }
+//go:norace
+func (r *rlocker) Lock() { (*RWMutex)(r).RLock() }
+
+//go:norace
 func (r *rlocker) Unlock() { (*RWMutex)(r).RUnlock() }
 
 // ---------------- Cond
@@ -178,6 +217,7 @@ type Cond struct {
 	waiters []*simrt.Task
 }
 
+//go:norace
 func NewCond(l Locker) *Cond {
 	c := &Cond{L: l}
 	// the real cond works on the real mutex inside our Mutex when inactive
@@ -192,6 +232,7 @@ func NewCond(l Locker) *Cond {
 	return c
 }
 
+//go:norace
 func (c *Cond) Wait() {
 	s := simrt.Active()
 	if s == nil {
@@ -199,20 +240,25 @@ func (c *Cond) Wait() {
 		return
 	}
 	t := s.Cur()
+	simrt.RaceDisable()
 	c.im.Lock()
 	c.waiters = append(c.waiters, t)
 	c.im.Unlock()
+	simrt.RaceEnable()
 	c.L.Unlock()
 	s.Block(t, "cond.Wait")
 	c.L.Lock()
 }
 
+//go:norace
 func (c *Cond) Signal() {
 	s := simrt.Active()
 	if s == nil {
 		c.real.Signal()
 		return
 	}
+	simrt.RaceDisable()
+	defer simrt.RaceEnable()
 	c.im.Lock()
 	var w *simrt.Task
 	if len(c.waiters) > 0 {
@@ -225,12 +271,15 @@ func (c *Cond) Signal() {
 	}
 }
 
+//go:norace
 func (c *Cond) Broadcast() {
 	s := simrt.Active()
 	if s == nil {
 		c.real.Broadcast()
 		return
 	}
+	simrt.RaceDisable()
+	defer simrt.RaceEnable()
 	c.im.Lock()
 	w := c.waiters
 	c.waiters = nil
@@ -241,18 +290,25 @@ func (c *Cond) Broadcast() {
 // ---------------- WaitGroup
 
 type WaitGroup struct {
+	hb      byte
 	real    sync.WaitGroup
 	im      sync.Mutex
 	n       int
 	waiters []*simrt.Task
 }
 
+//go:norace
 func (wg *WaitGroup) Add(d int) {
 	s := simrt.Active()
 	if s == nil {
 		wg.real.Add(d)
 		return
 	}
+	if d < 0 {
+		simrt.RaceReleaseMerge(unsafe.Pointer(&wg.hb))
+	}
+	simrt.RaceDisable()
+	defer simrt.RaceEnable()
 	wg.im.Lock()
 	wg.n += d
 	if wg.n < 0 {
@@ -268,8 +324,10 @@ func (wg *WaitGroup) Add(d int) {
 	s.MakeRunnable(w...)
 }
 
+//go:norace
 func (wg *WaitGroup) Done() { wg.Add(-1) }
 
+//go:norace
 func (wg *WaitGroup) Wait() {
 	s := simrt.Active()
 	if s == nil {
@@ -278,10 +336,13 @@ func (wg *WaitGroup) Wait() {
 	}
 	simrt.Yield()
 	t := s.Cur()
+	simrt.RaceDisable()
 	for {
 		wg.im.Lock()
 		if wg.n == 0 {
 			wg.im.Unlock()
+			simrt.RaceEnable()
+			simrt.RaceAcquire(unsafe.Pointer(&wg.hb))
 			return
 		}
 		wg.waiters = append(wg.waiters, t)
@@ -293,12 +354,14 @@ func (wg *WaitGroup) Wait() {
 // ---------------- Once
 
 type Once struct {
+	hb      byte
 	real    sync.Once
 	im      sync.Mutex
 	state   int // 0 new, 1 running, 2 done
 	waiters []*simrt.Task
 }
 
+//go:norace
 func (o *Once) Do(f func()) {
 	s := simrt.Active()
 	if s == nil {
@@ -307,21 +370,28 @@ func (o *Once) Do(f func()) {
 	}
 	t := s.Cur()
 	for {
+		simrt.RaceDisable()
 		o.im.Lock()
 		switch o.state {
 		case 2:
 			o.im.Unlock()
+			simrt.RaceEnable()
+			simrt.RaceAcquire(unsafe.Pointer(&o.hb))
 			return
 		case 0:
 			o.state = 1
 			o.im.Unlock()
+			simrt.RaceEnable()
 			defer func() {
+				simrt.RaceRelease(unsafe.Pointer(&o.hb))
+				simrt.RaceDisable()
 				o.im.Lock()
 				o.state = 2
 				w := o.waiters
 				o.waiters = nil
 				o.im.Unlock()
 				s.MakeRunnable(w...)
+				simrt.RaceEnable()
 			}()
 			f()
 			return
@@ -329,6 +399,7 @@ func (o *Once) Do(f func()) {
 			o.waiters = append(o.waiters, t)
 			o.im.Unlock()
 			s.Block(t, "once")
+			simrt.RaceEnable()
 		}
 	}
 }
